@@ -308,6 +308,8 @@ def relayouts(src):
     def is_code(ln):
         return ln.strip() and not ln.strip().startswith("#")
     out["trailing_comments"] = "\n".join((ln + "  # c" if is_code(ln) and not ln.rstrip().endswith("\\") else ln) for ln in lines)
+    out["trailing_comment_ending_in_backslash"] = "\n".join((ln + "  # falling edge \\" if is_code(ln) and not ln.rstrip().endswith("\\") else ln)
+                                                              for ln in lines)
     out["trailing_comment_nospace"] = "\n".join((ln + " #c" if is_code(ln) else ln) for ln in lines)
     col0 = []
     for ln in lines:
@@ -606,7 +608,7 @@ def run(tier, seed, only=None):
                     "every path.  Header recognisers: z3's regular-expression theory decides whether a valid header spelling "
                     "exists that the live pattern rejects.  _strip_inline_comment: CrossHair against a reference scanner over "
                     "the alphabet {space # ' \" \\ a :}.  Cross-check through the real pipeline: every skeleton is re-laid-out "
-                    "in 18 meaning-preserving ways (ast-equal by construction) and must yield byte-identical firmware; with "
+                    "in 19 meaning-preserving ways (ast-equal by construction) and must yield byte-identical firmware; with "
                     "REDUINO_VERIF=1 the parser's ignored-line log may contain only host-only statements and fragments.  accounted/*: "
                     "the F-vs-H trace differential of C01 on the statement-kind x block-context product family.",
         functions_encoded=["parser._indent_of/_collect_block/_collect_if_structure/_collect_try_structure (pysym)",
@@ -614,7 +616,7 @@ def run(tier, seed, only=None):
                            "parser._strip_inline_comment (CrossHair)", "parse()+emit() on re-laid-out scripts"],
         bounds={"block lines": n, "indent": "0..3 units; unit in {1 space, 2 spaces, tab}", "header line length": "<= 40",
                 "comment lemma": "len <= 5 (quick) / 7 over a 7-letter alphabet",
-                "accounted": "26 statement kinds x 19 block contexts, 2 loop passes, sensor values symbolic", "layout variants per script": 18},
+                "accounted": "26 statement kinds x 19 block contexts, 2 loop passes, sensor values symbolic", "layout variants per script": 19},
         assumptions=["the layout cross-check is concrete (one run per variant); its deciding parts are the symbolic block/regex/"
                      "comment obligations", "Python requires block bodies to be indented deeper than their header"],
         stubs=[],
